@@ -97,6 +97,31 @@ def strings(cfg, rng):
             yield "assoc", f"{a} {rng.choice('/*-+')} {b} {rng.choice('/*-+')} {c3}"
 
 
+def scribbled_tokens(rec):
+    """token lists handed out are the caller's, the Token objects in them included: a caller that post-processes
+    them in place (turns '-' into '+', renames a variable, blanks the end marker) must not change how the next
+    text is read by anybody -- the parses that follow are decided by the grammar monitor like all others"""
+    from mathy_core.parser import ExpressionParser
+    from mathy_core.tokenizer import Tokenizer, TOKEN_TYPES
+
+    texts = ["a - b", "7 - 2 * (x + 1) / 4 ^ 2 = 3!", "[p] - -q", "sgn(-4) + 10 - x - 1"]
+    checks = ["7 - 2", "10 - x - 1", "-3", "2 * (x + 4) / 5", "a = b ^ 2", "4! + [y]", "sgn(x) - 1", "x - -y"]
+    for source in (lambda t: Tokenizer().tokenize(t), lambda t: ExpressionParser().tokenize(t), lambda t: Tokenizer(exclude_padding=False).tokenize(t)):
+        for t in texts:
+            try:
+                toks = source(t)
+            except Exception:
+                continue
+            for i, tk in enumerate(toks):
+                tk.value, tk.type = ("+", TOKEN_TYPES.Plus) if i % 2 == 0 else ("z", TOKEN_TYPES.Variable)
+            rec.arm("grammar:token-objects-edited-by-the-caller")
+            for c in checks + [t]:
+                try:
+                    ExpressionParser().parse(c)
+                except Exception:
+                    pass
+
+
 def run(rec, cfg):
     from mathy_core.parser import ExpressionParser
 
@@ -104,6 +129,8 @@ def run(rec, cfg):
     rng = cfg.rng("c03")
     from ..workloads import interrupted as _INT
 
+    if cfg.shard == 5 % cfg.nshards:
+        scribbled_tokens(rec)
     if cfg.shard == 6 % cfg.nshards:
         _INT.parser_cases(rec, "C03")      # a parse cut short (Ctrl-C, MemoryError), then valid parses: still exactly the grammar
         from . import c12 as _c12
@@ -178,6 +205,7 @@ def replay(rec, cfg, w):
     from mathy_core.parser import ExpressionParser
 
     MP.attach_parser("C03", {"grammar"})
+    scribbled_tokens(rec)      # (cheap and deterministic: the edited-token history runs before the replayed text)
     try:
         ExpressionParser().parse(w["text"])
     except Exception:
